@@ -226,6 +226,9 @@ func (w *dtWalker) walk(st *dtState, b *ssa.BasicBlock, pred *ssa.BasicBlock) {
 }
 
 func (w *dtWalker) describeRet(st *dtState, v ssa.Value) string {
+	if k, ok := st.env[v]; ok && (k == "nil" || strings.HasPrefix(k, "param:")) {
+		return k
+	}
 	if isNilConst(v) {
 		return "nil"
 	}
@@ -265,8 +268,14 @@ func (w *dtWalker) addrKey(st *dtState, a ssa.Value) string {
 		return fmt.Sprintf("local:%s", x.Comment)
 	case *ssa.IndexAddr:
 		base := w.keyOf(st, x.X)
-		if cv, ok := w.constOfVal(st, x.Index); ok && base != "" {
+		if base == "" {
+			return ""
+		}
+		if cv, ok := w.constOfVal(st, x.Index); ok {
 			return base + "[" + cv.ExactString() + "]"
+		}
+		if ik := w.keyOf(st, x.Index); ik != "" {
+			return base + "[" + ik + "]"
 		}
 	}
 	return ""
